@@ -80,7 +80,7 @@ impl Property for C08 {
             "r1:proof-R-random", "r1:proof-z+1", "r1:proof-for-other-identifier", "r1:proof-from-other-run", "r1:coefficient-0", "r1:coefficient-top",
             "r1:truncate", "r1:extend", "r1:other-senders-package", "r1:package-from-other-run", "r1:filed-under-own-id", "r1:filed-under-unknown-id",
             "r1:missing", "r1:surplus", "r2:share+1", "r2:share-zero", "r2:share-for-other-recipient", "r2:share-from-other-run",
-            "r2:share-of-other-sender", "r2:filed-under-own-id", "r2:filed-under-unknown-id", "r2:missing", "r2:surplus", "r1:own-package-echoed", "r1:own-package-replaces-sender", "r2:own-share-echoed", "large-group", "sender=last", "receiver=last",
+            "r2:share-of-other-sender", "r2:filed-under-own-id", "r2:filed-under-unknown-id", "r2:missing", "r2:surplus", "r1:own-package-echoed", "r1:own-package-replaces-sender", "r2:own-share-echoed", "r1:length-t+65536", "large-group", "sender=last", "receiver=last",
         ]
         .iter()
         .map(|s| (s.to_string(), m))
@@ -213,6 +213,12 @@ fn check<C: Suite>(case: &Case, ctx: &mut Ctx) -> CheckResult {
                 let mut c4 = comm.clone();
                 c4.extend(comm.iter().copied());
                 r1f("length-2t", Expect::Part2Structural, with_commitment(pkg, c4));
+                // a length that equals t only modulo 2^16 (once per receiver: the vector has 65536 + t entries)
+                if si == if ri == 0 { 1 } else { 0 } {
+                    let mut c5 = comm.clone();
+                    c5.resize(comm.len() + 65536, CoefficientCommitment::new(gen_::<C>() * sc_rand_nonzero::<C>(rng.next())));
+                    r1f("length-t+65536", Expect::Part2Structural, with_commitment(pkg, c5));
+                }
             }
             if let Some(o) = other_sender {
                 r1f("other-senders-package", Expect::Part2Culprit, a.r1_pkg[&o].clone());
@@ -244,6 +250,31 @@ fn check<C: Suite>(case: &Case, ctx: &mut Ctx) -> CheckResult {
                 m.remove(s);
                 m.insert(*r, a.r1_pkg[r].clone());
                 faults.push(("r1:own-package-replaces-sender".into(), Expect::Part2Structural, m, base2.clone()));
+            }
+            // ---- the same over-long commitment, but CONSISTENT: the sender really uses a polynomial with 65536 further
+            // coefficients (all equal to e) and sends the matching share. Every check of the share equation passes; only
+            // the length check can stop it. (Once per case for the 3-of-2 shape of the fast suites: part3 evaluates
+            // 65538 terms.)
+            if n == 3 && t == 2 && ri == 0 && si == 1 && !C::SID.slow() {
+                let e = sc_rand_nonzero::<C>(rng.next());
+                let mut c6 = comm.clone();
+                c6.resize(comm.len() + 65536, CoefficientCommitment::new(gen_::<C>() * e));
+                let x = r.to_scalar();
+                // e * sum_{k=t}^{t+65535} x^k
+                let mut pw = one::<C>();
+                for _ in 0..t {
+                    pw = pw * x;
+                }
+                let mut acc = zero::<C>();
+                for _ in 0..65536u32 {
+                    acc = acc + pw;
+                    pw = pw * x;
+                }
+                let mut m1 = base1.clone();
+                m1.insert(*s, with_commitment(pkg, c6));
+                let mut m2 = base2.clone();
+                m2.insert(*s, round2::Package::new(SigningShare::new(base2[s].signing_share().to_scalar() + e * acc)));
+                faults.push(("r1:length-t+65536-with-matching-share".into(), Expect::Part2Structural, m1, m2));
             }
             // ---- round-two faults
             let sh = base2[s].signing_share().to_scalar();
